@@ -151,6 +151,34 @@ pub fn run(ctx: &mut Ctx) {
         }
     }
 
+    // ---- structured large graphs: five supply orders of the terms (Builder, binary v3, hp.obo) must agree
+    {
+        let family = super::common::large_family();
+        ctx.space("large-structured/orders", &format!("{} large shapes x 5 term orders via Builder, binary v3 and hp.obo (the class of each path must be a singleton equal to the model)", family.len()));
+        for (base, what) in &family {
+            if !ctx.take() {
+                continue;
+            }
+            ctx.state();
+            ctx.nontrivial();
+            let r = RefOnt::derive(base);
+            let n = base.terms.len();
+            let case = || json!({"shape": what, "n_terms": n});
+            let (mut cb, mut cbin, mut cobo) = (Class::new(), Class::new(), Class::new());
+            let exp_min = Obs::expected(&r, Mode::Minimal);
+            let exp_def = Obs::expected(&r, Mode::Defaults);
+            for (order, oname) in super::common::large_orders(n) {
+                let f = Facts { terms: apply_perm(&base.terms, &order), ..base.clone() };
+                ctx.transitions(3 * f.n_steps());
+                cb.add(ctx, drive::build(&f, Mode::Minimal), &exp_min, "builder", oname, &case);
+                cbin.add(ctx, from_bytes(&encode::encode(&f, &EncOpts::v(3))), &exp_def, "binary v3", oname, &case);
+                cobo.add(ctx, from_jax(&f, &JaxOpts::default(), false), &exp_def, "jax", oname, &case);
+            }
+            ctx.sample(|| json!({"shape": what, "n_terms": n, "orders": 5}));
+        }
+        jax::cleanup();
+    }
+
     // ---- binary v3: permutations of the records of every section and of the ids inside records
     {
         let n = if thorough { 4 } else { 3 };
@@ -170,7 +198,7 @@ pub fn run(ctx: &mut Ctx) {
                     // a second omim and orpha record so that those sections have something to permute
                     let mut anns = groups.interleaved();
                     anns.push(Facts::ann(crate::model::Kind::Omim, 600_003, "Disease three", Some(ids[0])));
-                    anns.push(Facts::ann(crate::model::Kind::Orpha, 78, "Orpha two", Some(ids[nn - 1])));
+                    anns.push(Facts::ann(crate::model::Kind::Orpha, 88, "Orpha extra", Some(ids[nn - 1])));
                     let base = Facts { anns, ..base };
                     if base.edges.len() >= 1 {
                         ctx.nontrivial();
@@ -239,7 +267,11 @@ pub fn run(ctx: &mut Ctx) {
                 base.version = (2024, 2, 29);
                 let ids: Vec<u32> = base.terms.iter().map(|t| t.id).collect();
                 let groups = AnnGroups::new(s, &ids);
-                let anns: Vec<AnnFact> = groups.interleaved().into_iter().filter(|a| a.term.is_some()).collect();
+                let mut anns: Vec<AnnFact> = groups.interleaved().into_iter().filter(|a| a.term.is_some()).collect();
+                // an OMIM disease with the same numeric id as ORPHA:77, on the same terms (rows can become adjacent)
+                let twins: Vec<AnnFact> = anns.iter().filter(|a| a.kind == crate::model::Kind::Orpha && a.id == 77).map(|a| Facts::ann(crate::model::Kind::Omim, 77, "Omim seventy-seven", a.term)).collect();
+                anns.retain(|a| !(a.kind == crate::model::Kind::Orpha && a.id == 78));
+                anns.extend(twins);
                 let base = Facts { anns, ..base };
                 if base.edges.len() >= 1 {
                     ctx.nontrivial();
